@@ -66,7 +66,7 @@ OtherClass ==
      template_raises |-> "grey", template_undefined |-> "grey", template_garbles_expression |-> "grey", dot_license_is_directory |-> "grey",
      licenses_same_identifier |-> "invalid",     \* LICENSES/MIT.txt next to LICENSES/MIT.md: a conflict of the project's set-up
      two_files_fail_annotate |-> "valid", three_files_fail_annotate |-> "valid",   \* nothing wrong with the configuration
-     gitmodules_empty_path |-> "valid", gitmodules_not_utf8 |-> "valid",           \* odd bytes in what Git reports: not a
+     gitmodules_empty_path |-> "valid", gitmodules_bare_path_key |-> "valid", gitmodules_not_utf8 |-> "valid",           \* odd bytes in what Git reports: not a
      ignored_name_not_utf8 |-> "valid", covered_name_not_utf8 |-> "valid",         \* configuration error, never a traceback
      covered_gone_after_listing |-> "valid", dot_license_is_fifo |-> "valid", covered_expression_parens |-> "valid", toml_glob_run |-> "valid",
      toml_expression_parens |-> "invalid", template_not_utf8 |-> "grey",
